@@ -2729,7 +2729,7 @@ class Walker:
     def inline_call(self, fi: FunctionInfo, recv, args, kwargs, e: ast.Call, outer_env=None) -> Term:
         if any(d.split("(")[0].split(".")[-1] not in ("staticmethod", "njit", "jit", "property") for d in fi.decorators):
             # a decorated helper is not its body (memoisation, wrapping, ...): keep the call opaque
-            fn = ("attr", recv, fi.name) if recv is not None else ("mod", fi.fq)
+            fn = ("attr", recv, fi.name) if recv is not None else ("mod", f"{fi.module}.{fi.qual}")
             t = ("call", fn, args, kwargs)
             self.emit("call", e, target=fn, value=t, name=fi.name, args=args, kwargs=kwargs)
             self.invalidate(self.call_writes(fi.name), None, cause="call:" + fi.name)
